@@ -666,7 +666,7 @@ func runCorr(a map[string]string) {
 	nmisc := hx.ArgInt(a, "misc", 120)
 	narith := hx.ArgInt(a, "arith", 24)
 	if thorough {
-		nkeys, nmisc, narith = nkeys*6, nmisc*8, narith*6
+		nkeys, nmisc, narith = nkeys*20, nmisc*25, narith*12
 	}
 	// 1. verify: every signature candidate under the honest key, every key candidate with the honest signature,
 	//    and a few crossed pairs
